@@ -52,19 +52,24 @@ class FalsyHit(bytes):
 
 
 class Cache:
-    def __init__(self, idx, hit, log):
+    def __init__(self, idx, hit, log, exc=ConnectionResetError):
         self.idx, self.hit, self.log = idx, hit, log
         self.answers = {}
+        self.exc = exc
 
     def _read(self, name, args, multi):
         self.log.append((self.idx, name, args, {}))
         if self.hit == "raises":
-            raise ConnectionResetError("cache %d is unreachable (scripted)" % self.idx)
+            raise self.exc("cache %d is unreachable (scripted)" % self.idx)
         if not self.hit:
             return {} if multi else None
         if self.hit == "falsy" and not multi:
             # a hit whose value is falsy but not None: an empty value, zero, an empty str
             r = FalsyHit(self.idx)
+        elif name == "gets":
+            r = (("value-from-cache-%d" % self.idx,), b"token-of-cache-%d" % self.idx)       # (value, cas token) as Client.gets gives
+        elif name == "gets_many":
+            r = {"k1": (("value-from-cache-%d" % self.idx,), b"token-of-cache-%d" % self.idx)}
         else:
             r = {"k1": ("value-from-cache-%d" % self.idx,)} if multi else ("value-from-cache-%d" % self.idx,)
         self.answers[name] = r
@@ -87,7 +92,7 @@ class Cache:
             def f(*a, **k):
                 self.log.append((self.idx, name, a, k))
                 if self.hit == "raises":
-                    raise ConnectionResetError("cache %d is unreachable (scripted)" % self.idx)
+                    raise self.exc("cache %d is unreachable (scripted)" % self.idx)
                 return True
             return f
         raise AttributeError(name)
@@ -181,6 +186,72 @@ def run_scripted(res, fallback, n, hits, reconf=None):
             res.case(case if n >= 2 else None)
 
 
+def _exc_kinds():
+    from pymemcache import exceptions as X
+    return [ConnectionRefusedError, ConnectionResetError, TimeoutError, BrokenPipeError, OSError, X.MemcacheServerError,
+            X.MemcacheUnexpectedCloseError, X.MemcacheUnknownError]
+
+
+def run_token_and_outage(res, fallback, n, hits, reconf=None):
+    """(a) a cas token that a fallback cache handed out through gets/gets_many is then used in cas(): cas is a mutating
+    operation - first cache only, caller's arguments; (b) the primary refuses / fails the write: whatever the caller gets to
+    see, the write must not turn up at a fallback cache."""
+    first = next((i for i in range(n) if hits[i] is True), None)
+    if first is not None and "falsy" not in hits[:first]:
+        for op in ("gets", "gets_many"):
+            log = []
+            caches = [Cache(i, hits[i], log) for i in range(n)]
+            fc = build(fallback, caches, reconf)
+            case = ("token", n, hits, op, reconf)
+            try:
+                r = getattr(fc, op)(["k1", "k2"] if op == "gets_many" else "k1")
+                token = (r["k1"] if op == "gets_many" else r)[1]
+            except Exception as e:
+                res.violation("read-raises:" + op, "%s raised %r" % (op, e), case)
+                continue
+            for step in (1, 2):         # the second cas comes without a new gets
+                del log[:]
+                try:
+                    fc.cas("k1", "new", token, 0, False)
+                except Exception as e:
+                    res.violation("write-raises:cas", "cas with the token from %s raised %r" % (op, e), case)
+                    break
+                res.count("cache_calls_logged", len(log))
+                res.count("writes_checked")
+                res.count("cas_with_a_token_from_a_fallback_cache" if first > 0 else "cas_with_a_token_from_the_primary")
+                touched = sorted({e[0] for e in log})
+                if touched != [0]:
+                    res.violation("write-reaches-fallback:cas:token-from-%s" % op,
+                                  "hits %r: %s answered by cache %d, then cas(k1, new, %r) touched caches %r" % (hits, op, first, token, touched), case)
+                    break
+                prim = [e for e in log if e[0] == 0]
+                if len(prim) != 1 or prim[0][1] != "cas" or normalise("cas", prim[0][2], prim[0][3]) != ("k1", "new", token, 0, False):
+                    res.violation("write-args-changed:cas", "primary saw %r after %s" % (prim, op), case)
+                    break
+            res.case(case if n >= 2 else None)
+    if n >= 2 and hits[0] is False:
+        for ek, exc in enumerate(_exc_kinds()):
+            for op, variants in WRITES.items():
+                args, kwargs, want = variants[(ek + n) % len(variants)]
+                log = []
+                caches = [Cache(i, hits[i], log) for i in range(n)]
+                caches[0].hit, caches[0].exc = "raises", exc
+                fc = build(fallback, caches, reconf)
+                case = ("outage", n, hits, op, exc.__name__, reconf)
+                try:
+                    getattr(fc, op)(*args, **kwargs)
+                    res.count("primary_failures_not_passed_on")
+                except Exception:
+                    res.count("primary_failures_passed_on")
+                res.count("cache_calls_logged", len(log))
+                res.count("writes_checked")
+                touched = sorted({e[0] for e in log})
+                if [t for t in touched if t != 0]:
+                    res.violation("write-reaches-fallback:" + op + ":primary-fails",
+                                  "%s while the primary raises %s touched caches %r" % (op, exc.__name__, touched), case)
+                res.case(case)
+
+
 def run_session(res, fallback, n, seed):
     """one FallbackClient, many calls, the caches' contents changing in between: every call starts again at the first
     cache and writes keep going to the first cache, whatever earlier calls found"""
@@ -193,7 +264,23 @@ def run_session(res, fallback, n, seed):
     session_writes = {"set": (("k1", "v"), {}), "add": (("k1", "v"), {}), "delete": (("k1",), {}), "incr": (("k1", 1), {}),
                       "touch": (("k1",), {}), "replace": (("k1", "v"), {}), "flush_all": ((), {})}
     raised_before = False
+    last_token = None
     for step in range(12):
+        if step and rng.random() < 0.12:
+            # the order is reconfigured between two calls through the public attribute (see ASSUMPTIONS): caches[i] stays
+            # "the i-th configured cache" for the oracle
+            how = rng.choice(("rotate", "assign-reversed", "swap-first-two"))
+            if how == "rotate":
+                fc.caches.append(fc.caches.pop(0))
+            elif how == "assign-reversed":
+                fc.caches = list(reversed(fc.caches))
+            else:
+                fc.caches[0], fc.caches[1] = fc.caches[1], fc.caches[0]
+            caches = list(fc.caches)
+            for i_, c_ in enumerate(caches):
+                c_.idx = i_
+            steps.append(("reconfigured", how))
+            res.count("session_reconfigurations")
         hits = tuple(rng.choice((False, True, "falsy")) for _ in range(n))
         if rng.random() < 0.15:
             # one cache is unreachable during this step (its client raises): what this step does is not judged, the
@@ -204,6 +291,8 @@ def run_session(res, fallback, n, seed):
             c.hit = h
             c.answers = {}
         op = rng.choice(READS + list(session_writes))
+        if last_token is not None and rng.random() < 0.5:
+            op = "cas"
         steps.append((hits, op))
         case = ("session", n, seed, step)
         del log[:]
@@ -211,6 +300,9 @@ def run_session(res, fallback, n, seed):
             if op in READS:
                 arg = ["k1", "k2"] if op.endswith("many") else "k1"
                 r = getattr(fc, op)(arg)
+            elif op == "cas":
+                fc.cas("k1", "v", last_token)
+                last_token = None
             else:
                 args, kwargs = session_writes[op]
                 getattr(fc, op)(*args, **kwargs)
@@ -245,6 +337,8 @@ def run_session(res, fallback, n, seed):
             if first is None and r:
                 res.violation("session:all-miss-returns-value:" + op, "step %d of %r: returned %r" % (step, steps, r), case)
                 return
+            if first is not None and hits[first] is True and op in ("gets", "gets_many"):
+                last_token = (r["k1"] if op == "gets_many" else r)[1]
         else:
             res.count("writes_checked")
             if consulted != [0]:
@@ -311,6 +405,131 @@ def run_real(res, fallback, n, hits):
         res.case(case if n >= 2 else None)
 
 
+def _codes_of(cls):
+    out = []
+
+    def walk(code):
+        if code in out:
+            return
+        out.append(code)
+        for c in code.co_consts:
+            if hasattr(c, "co_code"):
+                walk(c)
+    for f in vars(cls).values():
+        f = getattr(f, "__func__", f)
+        if callable(f) and hasattr(f, "__code__"):
+            walk(f.__code__)
+    return out
+
+
+def two_threads(res, fallback, tier):
+    """Two threads share one FallbackClient (its caches being thread-safe clients), one call each, starting on a fresh
+    object; every schedule with at most P preemptions at line granularity inside fallback.py.  Each caller's own call must
+    consult the caches in order up to the first hit and return that hit; a write goes to the first cache only."""
+    from vk import sched as S
+    S.install(_codes_of(fallback.FallbackClient), "line")
+    P = 2 if tier == "quick" else 3
+    programs = [("get", "get"), ("get_many", "get_many"), ("gets", "gets"), ("gets_many", "gets_many"), ("get", "gets"), ("get", "set"),
+                ("gets", "cas"), ("get_many", "delete")]
+    for n, hits in ((2, (False, True)), (3, (False, False, True)), (3, (False, True, True)), (2, (False, False))):
+        for pa, pb in programs:
+            stack = [({}, 0)]
+            executed = 0
+            while stack and executed < (300 if tier == "quick" else 3000):
+                forced, used = stack.pop()
+                sch = S.Sched(2, forced)
+                log = []
+
+                class TCache(Cache):
+                    def _read(self_, name, args, multi):
+                        r = Cache._read(self_, name, args, multi)
+                        log[-1] = log[-1] + (sch.me(),)
+                        return r
+
+                    def __getattr__(self_, name):
+                        f = Cache.__getattr__(self_, name)
+
+                        def g(*a, **k):
+                            r = f(*a, **k)
+                            log[-1] = log[-1] + (sch.me(),)
+                            return r
+                        return g
+                caches = [TCache(i, hits[i], log) for i in range(n)]
+                fc = fallback.FallbackClient(list(caches))
+                outs = {}
+
+                def prog(t, op):
+                    def run():
+                        try:
+                            if op in READS:
+                                outs[t] = ("ret", getattr(fc, op)(["k1", "k2"] if op.endswith("many") else "k1"))
+                            elif op == "cas":
+                                outs[t] = ("ret", fc.cas("k1", "v", b"1"))
+                            elif op == "set":
+                                outs[t] = ("ret", fc.set("k1", "v"))
+                            else:
+                                outs[t] = ("ret", fc.delete("k1"))
+                        except S.SchedAbort:
+                            raise
+                        except BaseException as e:
+                            outs[t] = ("exc", e)
+                    return run
+                ok = sch.run([prog(0, pa), prog(1, pb)])
+                executed += 1
+                res.count("two_thread_schedules")
+                res.count("cache_calls_logged", len(log))
+                case = ("two-threads", n, hits, pa, pb, sorted(forced.items(), key=repr))
+                sig = tuple((i, a, b) for i, a, b, pre in sch.switches)
+                res.case(("two-threads", n, hits, pa, pb, sig) if sch.switches else None)
+                bad = None
+                if not ok or sch.deadlock or sch.errors:
+                    bad = ("two-threads:did-not-complete", "deadlock %r errors %r" % (sch.deadlock, sch.errors))
+                else:
+                    first = next((i for i in range(n) if hits[i]), None)
+                    for t, op in ((0, pa), (1, pb)):
+                        mine = [e for e in log if e[-1] == t]
+                        consulted = [e[0] for e in mine]
+                        out = outs.get(t)
+                        if out is None or out[0] != "ret":
+                            bad = ("two-threads:raises:" + op, "thread %d's %s -> %r" % (t, op, out))
+                        elif op in READS:
+                            res.count("reads_checked")
+                            want = list(range(n if first is None else first + 1))
+                            if consulted != want:
+                                bad = ("two-threads:wrong-caches-consulted:" + op, "thread %d's %s consulted %r, expected %r (hits %r)"
+                                       % (t, op, consulted, want, hits))
+                            elif first is not None and out[1] != caches[first].answers.get(op):
+                                bad = ("two-threads:not-first-hit:" + op, "thread %d's %s returned %r" % (t, op, out[1]))
+                            elif first is None and out[1]:
+                                bad = ("two-threads:all-miss-returns-value:" + op, "thread %d's %s returned %r" % (t, op, out[1]))
+                        else:
+                            res.count("writes_checked")
+                            if consulted != [0] or mine[0][1] != op:
+                                bad = ("two-threads:write-reaches-fallback:" + op, "thread %d's %s: calls %r" % (t, op, mine))
+                if bad:
+                    res.violation(bad[0], bad[1] + " ; program (%s || %s), schedule %r" % (pa, pb, sorted(forced.items(), key=repr)), case)
+                    break
+                last = max([k for k in forced if isinstance(k, int)], default=-1)
+                for (i, me, run, kind) in sch.trace:
+                    if i == "start":
+                        if not forced:
+                            stack.extend(({"start": t}, used) for t in run[1:])
+                        continue
+                    if i <= last:
+                        continue
+                    if kind in ("block", "finish"):
+                        for t in run[1:]:
+                            f = dict(forced)
+                            f[i] = t
+                            stack.append((f, used))
+                    elif used < P:
+                        for t in run:
+                            if t != me:
+                                f = dict(forced)
+                                f[i] = t
+                                stack.append((f, used + 1))
+
+
 def shard(tier, seed, idx, n_sh):
     res = common.Result()
     from pymemcache import fallback
@@ -321,9 +540,11 @@ def shard(tier, seed, idx, n_sh):
             if work % n_sh != idx:
                 continue
             run_scripted(res, fallback, n, hits)
+            run_token_and_outage(res, fallback, n, hits)
             if n >= 2:
                 for reconf in ("insert-primary", "assign", "drop-old-primary"):
                     run_scripted(res, fallback, n, hits, reconf)
+                    run_token_and_outage(res, fallback, n, hits, reconf)
                     res.count("reconfigured_clients")
             if "falsy" not in hits:
                 run_real(res, fallback, n, hits)
@@ -332,6 +553,8 @@ def shard(tier, seed, idx, n_sh):
         if work % n_sh != idx:
             continue
         run_session(res, fallback, 2 + si % 3, seed * 100003 + si)
+    if idx == n_sh - 1:
+        two_threads(res, fallback, tier)
     res.extra["exhaustive"] = True
     res.extra["exhaustive_part"] = "1..4 caches x all hit/miss assignments x all reads and writes"
     return res
@@ -343,6 +566,10 @@ def replay(case):
     n, hits = case[1], case[2]
     if case[0] == "session":
         run_session(res, fallback, case[1], case[2])
+    elif case[0] == "two-threads":
+        two_threads(res, fallback, "quick")
+    elif case[0] in ("token", "outage"):
+        run_token_and_outage(res, fallback, n, hits, case[-1])
     elif case[0].startswith("real"):
         run_real(res, fallback, n, hits)
     else:
